@@ -103,7 +103,22 @@ class Report:
     def count(self, rule):
         return sum(1 for (r, _k) in self.instances if r == rule)
 
+    def auto_samples(self):
+        """If a module recorded few samples, add actual instances (one per rule first) so the evidence shows what was examined."""
+        if len(self.samples) >= 6:
+            return
+        seen_rules = set(s.get("rule") for s in self.samples if isinstance(s, dict))
+        for k in self.order:
+            inst = self.instances[k]
+            if inst["rule"] in seen_rules or inst["rule"] in ("ANCHOR-LOST", "BUILD"):
+                continue
+            seen_rules.add(inst["rule"])
+            self.samples.append({"rule": inst["rule"], "instance": inst["key"], "verdict": "holds" if inst["ok"] else "violated", "note": inst.get("okmsg") or (inst["msgs"][0][:300] if inst["msgs"] else ""), "configurations": inst["configs"]})
+            if len(self.samples) >= 12:
+                break
+
     def finalize(self):
+        self.auto_samples()
         for rule, (n, what) in self.floors.items():
             c = self.count(rule)
             if c < n:
